@@ -224,6 +224,26 @@ func replayOnce(c *Ctx, rf *ReplayFile) (bool, string, error) {
 			return true, v.msg, nil
 		}
 		return false, "entry point output equals the library result", nil
+	case "so-c16-concurrent":
+		for t := 0; t < 20; t++ {
+			res, err := runHost(c, rf.Host, true)
+			if err != nil {
+				return false, "", err
+			}
+			if res == nil {
+				continue
+			}
+			for k, call := range rf.Host.Calls {
+				ref, err := DoFresh(c.sc.Worker, &Req{Op: "format", DSL: call.Input, Sched: s0()}, 1)
+				if err != nil || ref.TimedOut || ref.Crashed != "" || ref.ParsePanic != "" {
+					continue
+				}
+				if v := checkHostCall(ref, &res[k]); v != nil {
+					return true, fmt.Sprintf("repetition %d: %s", t+1, v.msg), nil
+				}
+			}
+		}
+		return false, "20 free-running repetitions all returned the library result", nil
 	case "host-c16", "so-c16":
 		res, err := runHost(c, rf.Host, rf.Kind == "so-c16")
 		if err != nil {
